@@ -18,7 +18,7 @@ Open Scope Z_scope.
 (* ================= the repaired code ================= *)
 
 (* T1: no command / response, in no state, makes the node panic or hang *)
-Theorem C08_no_panic : forall st c, safe (fst (handle repaired st c)).
+Theorem C08_no_panic : forall st c, ns_locked st = false -> safe (fst (handle repaired st c)).
 Proof. exact handle_safe. Qed.
 Print Assumptions C08_no_panic.
 
@@ -34,11 +34,25 @@ Print Assumptions C08_blocks_unchanged.
 (* T3: any request that was answered without error before an arbitrary message c is answered
    without error after it (no poisoned signature pool, no lock left behind in the model's terms) *)
 Theorem C08_still_serves : forall st c v,
+  ns_locked st = false ->
   is_request v = true ->
   fst (handle repaired st v) = Ok tt ->
   fst (handle repaired (snd (handle repaired st c)) v) = Ok tt.
 Proof. exact handle_still_serves. Qed.
 Print Assumptions C08_still_serves.
+
+(* T3b: every handler releases the core lock on every path (both versions of the code), and a sync
+   request whose eventDiff fails - a Known index below -1, events rolled out of the cache - is answered
+   with an error and is a no-op: together with T3 the next valid request is served *)
+Theorem C08_lock_released : forall fx st c, ns_locked st = false -> ns_locked (snd (handle fx st c)) = false.
+Proof. exact handle_releases_lock. Qed.
+Print Assumptions C08_lock_released.
+
+Theorem C08_sync_diff_error_noop : forall fx st limit,
+  gate (ns_state st) true = true -> ns_locked st = false ->
+  handle fx st (CSync limit true) = (Err, st).
+Proof. exact sync_diff_error_is_noop. Qed.
+Print Assumptions C08_sync_diff_error_noop.
 
 (* T4: the helpers, for every value *)
 Theorem C08_helpers_no_panic :
@@ -84,7 +98,7 @@ Print Assumptions C08_accepted_text_encodable.
 
 (* ================= the code as it is: REFUTED, one witness per site ================= *)
 
-Theorem C08_no_panic_refuted : ~ (forall st c, safe (fst (handle asis st c))).
+Theorem C08_no_panic_refuted : ~ (forall st c, ns_locked st = false -> safe (fst (handle asis st c))).
 Proof. exact no_panic_asis_refuted. Qed.
 Print Assumptions C08_no_panic_refuted.
 
@@ -189,14 +203,14 @@ Print Assumptions C08_site_encoder_hang_refuted.
 
 Theorem C08_site_restore_before_check_refuted :
   handle asis st_catching_up (RFastForward (with_frame_hash good_ff false) 99 [50]) =
-    (Err, mkNS 1 1000 3 [10; 11] 99 []) /\
+    (Err, mkNS 1 1000 3 [10; 11] 99 [] false) /\
   handle repaired st_catching_up (RFastForward (with_frame_hash good_ff false) 99 [50]) = (Err, st_catching_up).
 Proof. exact w_restore_before_check. Qed.
 Print Assumptions C08_site_restore_before_check_refuted.
 
 Theorem C08_site_reset_not_atomic_refuted :
   handle asis st_catching_up (RFastForward (with_insert good_ff false) 99 [50]) =
-    (Err, mkNS 1 1000 3 [] 99 []) /\
+    (Err, mkNS 1 1000 3 [] 99 [] false) /\
   handle repaired st_catching_up (RFastForward (with_insert good_ff false) 99 [50]) = (Err, st_catching_up).
 Proof. exact w_reset_not_atomic. Qed.
 Print Assumptions C08_site_reset_not_atomic_refuted.
@@ -210,6 +224,17 @@ Theorem C08_site_wedge_refuted :
 Proof. exact w_wedge. Qed.
 Print Assumptions C08_site_wedge_refuted.
 
+(* what the oracle's liveness probe detects: a handler that returned without releasing the core lock
+   (no path of the model does; seeded change seeded/C08) makes every later request block *)
+Theorem C08_leaked_lock_wedges :
+  handle asis st_babbling (CSync 10 true) = (Err, st_babbling) /\
+  handle repaired st_suspended (CSync 10 true) = (Err, st_suspended) /\
+  fst (handle repaired (snd (handle repaired st_babbling (CSync 10 true))) (CSync 10 false)) = Ok tt /\
+  fst (handle repaired (leak_lock st_babbling) (CSync 10 false)) = Hang /\
+  fst (handle repaired (leak_lock st_babbling) (CEager good_event [])) = Hang.
+Proof. exact w_sync_diff_error. Qed.
+Print Assumptions C08_leaked_lock_wedges.
+
 (* ================= the hypotheses are satisfiable / the model is not vacuous ================= *)
 
 (* honest objects are accepted by both versions: the repairs do not reject valid traffic *)
@@ -220,8 +245,8 @@ Example C08_honest_objects_accepted :
   fst (eager_sync repaired 0 good_event [good_entry]) = Ok tt /\
   ff_check asis good_ff = Ok tt /\ ff_check repaired good_ff = Ok tt /\
   process_sigpool repaired [good_entry] = (Ok tt, []) /\
-  handle repaired st_catching_up (RFastForward good_ff 99 [50]) = (Ok tt, mkNS 1 1000 3 [50] 99 []) /\
-  handle repaired st_babbling (CSync 2) = (Ok tt, st_babbling) /\
+  handle repaired st_catching_up (RFastForward good_ff 99 [50]) = (Ok tt, mkNS 1 1000 3 [50] 99 [] false) /\
+  handle repaired st_babbling (CSync 2 false) = (Ok tt, st_babbling) /\
   frame_validate good_ff = true /\ fev_valid good_fev = true.
 Proof. vm_compute. repeat split. Qed.
 
